@@ -275,6 +275,34 @@ def wrong_operand_rejected(n: int, op: int, i: int, kind: int) -> bool:
     return False
 
 
+DIM = int(_ELEMS[0].shape[0])      # rows (or entries) of one value: 2, 3, 4 or 6
+
+
+def dimension_length_matches_list(n: int, start: int, rev: int) -> bool:
+    """
+    the length at which a list of values can be mistaken for ONE matrix (as many values as a value has rows / entries; 6 for
+    the 6-vector classes, beyond the lengths of the other contracts): a slice holding exactly that many values, and
+    construction from that many single-valued objects or arrays, keep the values apart and in order
+    pre: DIM <= n <= DIM + 2
+    pre: 0 <= start <= n - DIM
+    pre: 0 <= rev <= 1
+    post: _
+    """
+    ref = list(range(n))
+    x = _mk(ref)
+    sl = slice(start, start + DIM) if rev == 0 else slice(start + DIM - 1, (start - 1) if start > 0 else None, -1)
+    want = ref[sl]
+    if len(want) != DIM:
+        return False
+    try:
+        got = x[sl]
+        objs = CLS([_mk([k]) for k in want])
+        arrs = CLS([_ELEMS[k] for k in want])
+    except Exception:
+        return False
+    return type(got) is CLS and _tags(got) == want and _tags(x) == ref and _tags(objs) == want and _tags(arrs) == want
+
+
 def construct_from_objects(n: int) -> bool:
     """
     constructor from a list of n single-valued objects, the copy constructor, Empty and Alloc
